@@ -42,7 +42,20 @@ fn close(a: f64, b: f64) -> bool {
 fn case(t: &mut Tape, info: &mut CaseInfo) -> Result<(), String> {
     let mut prof = MapProfile::small(ALL_MODES, 50);
     prof.long_gaps = true;
-    let c = gen_map_case(t, info, &prof, &DiffProfile::realistic().passed(0), false);
+    run(t, info, &prof, false)
+}
+
+/// Long dense maps: hundreds of comparable non-zero sections, so that the tail of the weighted sum matters.
+fn case_long(t: &mut Tape, info: &mut CaseInfo) -> Result<(), String> {
+    let mut prof = MapProfile::realistic(ALL_MODES, 1500);
+    prof.size_weights = [0, 0, 1];
+    prof.long_gaps = false;
+    prof.marathon_one_in = 0;
+    run(t, info, &prof, true)
+}
+
+fn run(t: &mut Tape, info: &mut CaseInfo, prof: &MapProfile, long: bool) -> Result<(), String> {
+    let c = gen_map_case(t, info, prof, &DiffProfile::realistic().passed(0), false);
     if info.want_sample {
         info.sample = Some(json!({"map": c.spec.sample(), "target": mode_name(c.target), "difficulty": c.dspec.describe()}));
     }
@@ -120,6 +133,13 @@ fn case(t: &mut Tape, info: &mut CaseInfo) -> Result<(), String> {
     info.label_if(zero_between, "zero-run-between-peaks");
     info.label_if(c.dspec.passed.is_some(), "passed_objects");
     info.nontrivial = nz.len() >= 2 && zero_between;
+    if long {
+        let max = main.iter().copied().fold(0.0, f64::max);
+        let comparable = main.iter().filter(|p| **p > 0.0 && **p >= max * 0.01).count();
+        info.label_if(comparable > 400, ">400-comparable-peaks");
+        info.label_if(comparable > 800, ">800-comparable-peaks");
+        info.nontrivial = comparable > 400;
+    }
     info.set_key(&format!("{:?}{:?}{:?}", c.spec, c.dspec, c.target));
     Ok(())
 }
@@ -134,6 +154,14 @@ pub fn property() -> Property {
             thorough: 200_000,
             tape_len: 1500,
             f: case,
+            direct: None,
+        }, SubCheck {
+            name: "long-dense-maps",
+            rule: "as strains-reaggregate, on G-MAP maps of 21..1500 objects without long gaps (mean gap ~0.5 s: up to ~1700 catch / ~1700 other sections) x G-DIFF incl. passed_objects. Non-trivial: more than 400 non-zero peaks of at least 1% of the largest peak (the tail of the decay-weighted sum beyond the 400th term is then of relative size ~1e-11, above the 1e-12 tolerance).",
+            quick: 1_500,
+            thorough: 10_000,
+            tape_len: 16000,
+            f: case_long,
             direct: None,
         }],
         assumptions: &["re-aggregation compares the harness's re-implementation of the documented formula with the library: relative tolerance 1e-12"],
